@@ -20,14 +20,33 @@ def handlers(db):
     if not fs:
         raise facts.AnalysisBroken("BaseSniffer::next_packet vanished")
     f = fs[0]
-    idx, parent = facts.index_fn(f)
+    d = dispatcher(db, f)
+    idx, parent = facts.index_fn(d)
     out = []
-    for n in facts.fn_nodes(f):
+    for n in facts.fn_nodes(d):
         if n["k"] == "DeclRefExpr" and n.get("fn"):
             p = parent.get(n["id"])
             if p is not None and p["k"] == "UnaryOperator" and p.get("op") == "&":
-                out.append((n["fn"], facts.loc(f, n)))
+                out.append((n["fn"], facts.loc(d, n)))
     return f, out
+
+
+def dispatcher(db, f):
+    """the function that picks the pcap callback for a link type: next_packet itself, or the library function it calls
+    for that (the one that takes addresses of functions)"""
+    def n_addr(fn_):
+        idx, parent = facts.index_fn(fn_)
+        return sum(1 for n in facts.fn_nodes(fn_) if n["k"] == "DeclRefExpr" and n.get("fn") and
+                   (parent.get(n["id"]) or {}).get("k") == "UnaryOperator" and parent[n["id"]].get("op") == "&")
+    if n_addr(f) > 0:
+        return f
+    best = f
+    for c in facts.fn_nodes(f):
+        if c["k"] in ("CallExpr", "CXXMemberCallExpr") and c.get("callee") and not c.get("ext"):
+            h = db.fn(c["callee"])
+            if h is not None and h.get("body") and (h.get("file") or "").startswith(("src/", "include/tins")) and n_addr(h) > n_addr(best):
+                best = h
+    return best
 
 
 def run(db, rep, tier):
@@ -74,7 +93,7 @@ def run(db, rep, tier):
         else:
             rep.ok("R4-loop-shape", "%s:marks-processed" % key, facts.loc(h), "packet_processed = true on every path")
     rep.rule("R2-link-types", "every link type the capture-file writer can announce for a layer class has a reader arm that creates that class", 8)
-    link_types(db, rep, f)
+    link_types(db, rep, dispatcher(db, f))
     rep.rule("R3-read-bounds", "a pcap handler reads the captured bytes itself only under a guard on the captured length", 9)
     for fid in sorted(seen):
         h = db.fn(fid)
